@@ -8,7 +8,7 @@ What is modelled (as the code *is*, every `raise` an explicit branch):
   with `==` / `<=`; `isinstance` for composites);
 * the structure constructor (`None` ⇒ default, otherwise the setter logic) and the union constructor
   (`_init_cnt_`) and union setters (assign, then every sibling `= None`);
-* `to_builtin` / `update_from_builtin` of `nunavut_support.j2` (dict sources; positional sources are `unmodelled`).
+* `to_builtin` / `update_from_builtin` of `nunavut_support.j2` (dict sources and positional sources; service classes).
 
 Python values are abstracted to what that code inspects (`Py`).  A float is sign + magnitude in units of
 `2^-1074` (every finite binary64 is such a multiple), `±inf` or `nan` (payload abstracted).  NumPy's
@@ -566,6 +566,36 @@ def tbFields : List Ty → List Py → Except Exc (List Py)
   | _ :: _, [] => .error .other
 end
 
+/-- `update_from_builtin`, source not a `dict` ("positional initialization"): a non-sequence becomes a 1-tuple;
+when the first field is an array or composite and there are more values than fields (more than one for a union)
+the whole sequence is handed to the first field; more values than fields ⇒ `TypeError`; then
+`{f.name: v for f, v in zip(fields, source)}` — returned as the per-field value list (`missing` = no key). -/
+def positional (union : Bool) (fs : List Ty) (v : Py) : Except Exc (List Py) :=
+  let src := match v with
+    | .list xs => xs
+    | x => [x]
+  let canPropagate := match fs with
+    | f :: _ => isArr f || isComp f
+    | [] => false
+  let tooMany := decide ((if union then 1 else fs.length) < src.length)
+  let src := if canPropagate && tooMany then [Py.list src] else src
+  if fs.length < src.length then .error .type
+  else .ok (src ++ List.replicate (fs.length - src.length) Py.missing)
+
+/-- `[update_from_builtin(dtype(), s) for s in value]`: what iterating the source value yields.  `None`, numbers and
+generated objects are not iterable (`TypeError`); a `str` yields its characters (ASCII modelled), `bytes` its
+integers. -/
+def iterate : Py → Except Exc (List Py)
+  | .list ss => .ok ss
+  | .bytes _ bs => .ok (bs.map fun b => .int ((b % 256 : Nat) : Int))
+  | .str bs => if bs.all (fun b => decide (b < 128)) then .ok (bs.map fun b => .str [b]) else .error .unmodelled
+  | .none => .error .type
+  | .bool _ => .error .type
+  | .int _ => .error .type
+  | .float _ => .error .type
+  | .obj .. => .error .type
+  | _ => .error .unmodelled
+
 mutual
 /-- The body of the `for f in fields` loop of `update_from_builtin` for one field of type `t` whose current value
 is `cur` (`None` for an unselected union option) and whose source value is `v`; returns the new field value.
@@ -577,15 +607,19 @@ def updSlot (np : Oracle) : Ty → Py → Py → Except Exc Py
     | .obj c slots, .dict vals extra => do
       let slots' ← (if union then updU np fs vals [] slots else updS np fs slots vals)
       if extra then throw .value else pure (.obj c slots')
-    | .obj .., _ => .error .unmodelled
+    | .obj .., .missing => .error .unmodelled
+    | .obj c slots, src => do
+      let vals ← positional union fs src
+      let slots' ← (if union then updU np fs vals [] slots else updS np fs slots vals)
+      pure (.obj c slots')
     | _, _ => .error .other
   | .arr fixed cap e, _, v =>
     if isComp e then
-      match v with
-      | .list ss => do
+      match iterate v with
+      | .ok ss => do
         let objs ← ss.mapM (updSlot np e Py.none)
         assignArray np fixed cap e (.list objs)
-      | _ => .error .unmodelled
+      | .error x => .error x
     else assignArray np fixed cap e v
   | .bool, _, v => setField np .bool v
   | .int s w c, _, v => setField np (.int s w c) v
@@ -613,6 +647,14 @@ end
 /-- `update_from_builtin(d, v)` for a destination `d` of composite type `t`. -/
 def update (np : Oracle) (t : Ty) (d v : Py) : Except Exc Py :=
   if isComp t && isObj d then updSlot np t d v else .error .other
+
+/-- `to_builtin(obj)` / `update_from_builtin(obj, …)` at the top: `get_model(obj)`; for a *service* class (which has
+no fields of its own) both raise `TypeError` ("Built-in form is not defined for service types"). -/
+def toBuiltinTop (service : Bool) (t : Ty) (o : Py) : Except Exc Py :=
+  if service then .error .type else toBuiltin t o
+
+def updateTop (np : Oracle) (service : Bool) (t : Ty) (d v : Py) : Except Exc Py :=
+  if service then .error .type else update np t d v
 
 /-- A candidate ndarray holds only what its dtype can hold (true of every real ndarray). -/
 def ndOK : Py → Bool
@@ -680,5 +722,34 @@ def doImport (ex : List String → Bool) : List String → List String → Optio
     if ex (pre ++ [c]) then doImport ex (pre ++ [c]) cs
     else if ex (pre ++ [c ++ "_"]) then doImport ex (pre ++ [c ++ "_"]) cs
     else none
+
+/-! ## class identity
+
+The model identifies a generated class by a number `cls`; `isinstance(x, ns.pkg.Name_M_m)` in the emitted setters and
+constructors is `c = cls`.  Which classes are *the same* is fixed here: a class is generated per
+`(namespace, short name, major, minor)` — `full_reference_name` — and `cls` is its position in the table of the run, so
+two instances have the same `cls` exactly when all four agree (another minor or major version, a namesake in another
+namespace and a structurally identical definition are all *other* classes).  An instance of a user-defined subclass of
+a generated class has the `cls` of that generated class (it passes every `isinstance`, shares `_MODEL_` and the
+slots). -/
+
+structure ClsKey where
+  ns : List String
+  name : String
+  major : Nat
+  minor : Nat
+  deriving DecidableEq, Repr
+
+def clsOf (tbl : List ClsKey) (k : ClsKey) : Nat := tbl.idxOf k
+
+def keyTyId (k : ClsKey) : TyId := ⟨k.name, k.major, k.minor, false⟩
+
+/-- `obj.field = pkg.Name_M(...)`: the candidate is an instance of whatever class the package alias `Name_M` is bound
+to (`AttributeError` if the package has no such alias); the field is declared as `decl`. -/
+def setViaAlias (np : Oracle) (tbl : List ClsKey) (decl : ClsKey) (union : Bool) (fs : List Ty)
+    (pkg : List String) (name : String) (major : Nat) (slots : List Py) : Except Exc Py :=
+  match newestMinor ((tbl.filter (fun k => k.ns = pkg)).map keyTyId) name major with
+  | some k => setField np (.comp (clsOf tbl decl) union fs) (.obj (clsOf tbl ⟨pkg, name, major, k⟩) slots)
+  | none => .error .other
 
 end NunavutVerif.PyObj
